@@ -190,7 +190,9 @@ fn fit_perm_case<T: Sc>(rng: &mut Rng, case: u64, out: &mut CaseOut) {
         out.inconcl("fitted point not well identified (basis nearly collinear): fitted alpha comparison skipped");
         return;
     }
-    let tol = if T::IS_F64 { 1e-6 } else { 2e-2 };
+    // "up to the accuracy of the optimizer": the stopping rules bound the change of the objective, so a
+    // parameter along a flat direction is only determined up to the conditioning of the problem
+    let tol = if T::IS_F64 { 1e-6 } else { 2e-2 } * v.kappa().max(1.0);
     let rel = pa.iter().zip(&pb).map(|(x, y)| (x - y).abs() / x.abs().max(1e-300)).fold(0.0, f64::max);
     out.ratio("fitted_alpha_under_permutation", rel / tol);
     if rel > tol {
@@ -204,7 +206,7 @@ fn fit_perm_case<T: Sc>(rng: &mut Rng, case: u64, out: &mut CaseOut) {
         let j = perm[jj];
         let d: Vec<f64> = (0..ca.r).map(|i| ca.at(i, j) - cb.at(i, jj)).collect();
         let scale = la::norm2(ca.col(j)).max(1e-300);
-        let ctol = if T::IS_F64 { 1e-5 } else { 5e-2 };
+        let ctol = if T::IS_F64 { 1e-5 } else { 5e-2 } * v.kappa().max(1.0);
         if la::norm2(&d) / scale > ctol {
             violation(out, stream, case, format!("fitted coefficients of column {j} are not found at position {jj} of the permuted problem"), json!({"problem": spec.to_json(), "permutation": perm, "A": ca.d, "B": cb.d}));
             return;
@@ -289,8 +291,8 @@ fn rankdef_case<T: Sc>(rng: &mut Rng, case: u64, out: &mut CaseOut) {
 pub fn run(ctx: &Ctx) {
     ctx.rule("mrhs-vs-singles: an S-column problem (S in {1,2,3,5,8,12}, incl. duplicated and linearly dependent columns, weights, both flavours, f32/f64), the S single-column problems and a column-permuted S-column problem driven through the same alpha-history (1..4 wide updates); per column: coefficient column, residual block and every Jacobian block compared with kappa-scaled twin tolerances, total row counts N·S; S=1: bitwise agreement with the single problem recorded. rank-deficient: the same comparison at states with two exactly equal decay constants and a user threshold (tolerances scaled with the condition number of the kept part). permuted-fit: fits of well-separated decay models with 2..5 columns, fitted alpha equal to 1e-6 (f64) under permutation and coefficients permuted. non-trivial = S>1 and residual > 1e-3 |Y_w|");
     let t = ctx.tier;
-    let b = t.pick(15.0, 150.0);
-    ctx.run_cases("mrhs-vs-singles", t.pick(5000, 30000), b, |r, c, o| if c % 3 == 0 { twin_case::<f32>(r, c, o) } else { twin_case::<f64>(r, c, o) });
-    ctx.run_cases("rank-deficient", t.pick(2000, 10000), b, |r, c, o| if c % 3 == 0 { rankdef_case::<f32>(r, c, o) } else { rankdef_case::<f64>(r, c, o) });
-    ctx.run_cases("permuted-fit", t.pick(1500, 8000), b, |r, c, o| if c % 4 == 0 { fit_perm_case::<f32>(r, c, o) } else { fit_perm_case::<f64>(r, c, o) });
+    let b = t.pick(30.0, 900.0);
+    ctx.run_cases("mrhs-vs-singles", t.pick(5000, 240000), b, |r, c, o| if c % 3 == 0 { twin_case::<f32>(r, c, o) } else { twin_case::<f64>(r, c, o) });
+    ctx.run_cases("rank-deficient", t.pick(2000, 80000), b, |r, c, o| if c % 3 == 0 { rankdef_case::<f32>(r, c, o) } else { rankdef_case::<f64>(r, c, o) });
+    ctx.run_cases("permuted-fit", t.pick(1500, 64000), b, |r, c, o| if c % 4 == 0 { fit_perm_case::<f32>(r, c, o) } else { fit_perm_case::<f64>(r, c, o) });
 }
